@@ -131,9 +131,10 @@ PROPS = {
                 "counting, 24-byte wide; SIMD planners must decline each, the automatic planner must construct; every (type, n, direction); " + NT_PLAN,
     },
     "C15": {
+        "gen": {"module": "MC_Ctor.tla", "cfg": "MC_Ctor_quick.cfg", "args": ["-maxSetSize", "20000000"], "timeout": 1200},
         "variants": [{"name": "default"}, {"name": "dev", "profile": "dev", "run_env": {"RFV_LIGHT": "1"}}],
         "driver": "c15", "level": "model_checking", "mc": [MC_LAYER, MC_CALL, MC_DF],
-        "rule": "every (planner kind, f32/f64, n): immutable-input calls with k in 1..8 and ill-shaped classes; input bits before/after and read-only input pages; "
+        "rule": "every (planner kind, f32/f64, n): immutable-input calls with k in 1..8 and ill-shaped classes; the same calls on the TLC-generated constructor trees of moderate length; input bits before/after and read-only input pages; "
                 "every case is non-trivial",
     },
 }
